@@ -114,6 +114,10 @@ def call_builtin(ex, f, args, kwargs, line):
             return mk_int(z3.If(x.e >= 0, fl, z3.If(z3.ToReal(fl) == x.e, fl, fl + 1)))
         if isinstance(x, SStr):
             return ex.engine.int_of_str(ex, x, line)
+        if isinstance(x, Obj):
+            m = ex.find_method(x.cls, "__int__")
+            if m is not None:
+                return ex.call_function(m, [x], {}, line)
         raise Raised(TypeError, line, implicit=True, note="int() of %r" % (x,))
     if name == "float":
         (x,) = args
